@@ -27,7 +27,7 @@ class C17(Check):
 
     def rule(self):
         return ('scripts = (moves before the contact header, moves between contact header and SESS_INIT, moves in '
-                'session) over 34 adversarial/legal moves; all single moves and all ordered pairs of the 23 in-session '
+                'session) over 36 adversarial/legal moves; all single moves and all ordered pairs of the 25 in-session '
                 'moves (thorough: all triples) for both victim roles, plus random scripts of 3..8 moves; the victim '
                 'runs 1-2 own multi-segment transfers meanwhile; scripts naming the transfer ids of another connection of the '
                 'same process run beside that connection (6 transfers under way, acknowledged at the end); '
